@@ -1,6 +1,6 @@
-import XjsModel.Model.Lexer
 import XjsModel.Model.Printer
-import XjsModel.Spec.Utf8
+import XjsModel.Proofs.Utf8Enc
+import XjsModel.Proofs.StringValue
 /-
   C07 — Literal values survive transpilation.
 
@@ -14,93 +14,18 @@ import XjsModel.Spec.Utf8
     * the printer writes back-quoted literals with every backtick escaped, and nothing else changed;
     * numbers and identifiers: the printer emits the token literal verbatim, and the token literal is the source
       slice (by construction of `baseNextToken`).
+    * STRING VALUES: for EVERY single- or double-quoted literal whose body has a value under the ECMAScript StringValue
+      rules (`Spec/StringValue.lean`: raw text incl. the other quote and non-ASCII bytes, simple escapes, `\0`, identity
+      escapes, `\xHH`, `\uHHHH`, `\u{…}` up to six digits, line continuations), the lexer produces a STRING token
+      whose value, written between double quotes as the printer does, denotes the same value
+      (`string_literal_keeps_its_value`, induction over the derivation; any length, any mix of escapes).
   Decided by the correspondence (LEX/PRINT streams incl. exhaustive escapes in the thorough tier) and the model-free
-  oracle that evaluates source literal and emitted literal in a JavaScript engine: that the emitted literal has the
-  same string value for all literal texts (needs a formal StringValue semantics of ECMAScript; not modelled).
+  oracle that evaluates source literal and emitted literal in a JavaScript engine: numeric values, the escape forms
+  outside the specification relation (legacy octal, more than six digits in `\u{…}`, non-ASCII after a backslash),
+  and that the specification relation is ECMAScript's (goja evaluates both sides).
 -/
 namespace Xjs.C07
 open Xjs Xjs.Spec
-
-theorem or_low : ∀ (b : Nat), b < 64 → 128 ||| b = 128 + b := by decide
-theorem or_c0 : ∀ (b : Nat), b < 32 → 192 ||| b = 192 + b := by decide
-theorem or_e0 : ∀ (b : Nat), b < 16 → 224 ||| b = 224 + b := by decide
-theorem or_f0 : ∀ (b : Nat), b < 8 → 240 ||| b = 240 + b := by decide
-
-theorem b80 (x : Nat) (h : x < 64) : 128 ||| (x % 256) = 128 + x := by
-  rw [Nat.mod_eq_of_lt (by omega)]; exact or_low x h
-theorem bC0 (x : Nat) (h : x < 32) : 192 ||| (x % 256) = 192 + x := by
-  rw [Nat.mod_eq_of_lt (by omega)]; exact or_c0 x h
-theorem bE0 (x : Nat) (h : x < 16) : 224 ||| (x % 256) = 224 + x := by
-  rw [Nat.mod_eq_of_lt (by omega)]; exact or_e0 x h
-theorem bF0 (x : Nat) (h : x < 8) : 240 ||| (x % 256) = 240 + x := by
-  rw [Nat.mod_eq_of_lt (by omega)]; exact or_f0 x h
-
-theorem and_3f (x : Nat) : x &&& 0x3F = x % 64 := by
-  have := Nat.and_two_pow_sub_one_eq_mod x 6
-  simpa using this
-
-/-- the encoder of `lexer/helpers.go` is UTF-8, for every code point -/
-theorem encodeUTF8_is_utf8 (cp : Nat) (h : cp ≤ 0x10FFFF) : encodeUTF8 cp = utf8Encode cp := by
-  unfold encodeUTF8 utf8Encode toByte
-  simp only [and_3f, Nat.shiftRight_eq_div_pow]
-  have p6 : (2 : Nat) ^ 6 = 64 := by decide
-  have p12 : (2 : Nat) ^ 12 = 4096 := by decide
-  have p18 : (2 : Nat) ^ 18 = 262144 := by decide
-  rw [p6, p12, p18]
-  by_cases h1 : cp ≤ 0x7F
-  · have : cp < 0x80 := by omega
-    simp only [h1, this, if_true]
-    rw [Nat.mod_eq_of_lt (by omega)]
-  · by_cases h2 : cp ≤ 0x7FF
-    · have a : ¬ cp < 0x80 := by omega
-      have b : cp < 0x800 := by omega
-      simp only [h1, h2, a, b, if_true, if_false]
-      rw [bC0 _ (by omega), b80 _ (by omega)]
-    · by_cases h3 : cp ≤ 0xFFFF
-      · have a : ¬ cp < 0x80 := by omega
-        have b : ¬ cp < 0x800 := by omega
-        have c : cp < 0x10000 := by omega
-        simp only [h1, h2, h3, a, b, c, if_true, if_false]
-        rw [bE0 _ (by omega), b80 (cp / 64 % 64) (by omega), b80 (cp % 64) (by omega)]
-      · have a : ¬ cp < 0x80 := by omega
-        have b : ¬ cp < 0x800 := by omega
-        have c : ¬ cp < 0x10000 := by omega
-        simp only [h1, h2, h3, h, a, b, c, if_true, if_false]
-        rw [bF0 _ (by omega), b80 (cp / 4096 % 64) (by omega), b80 (cp / 64 % 64) (by omega), b80 (cp % 64) (by omega)]
-
-/-- bytes that must not appear raw inside the re-quoted literal -/
-def structural (b : Nat) : Bool := b == 34 || b == 92 || b == 10 || b == 13 || (48 ≤ b && b ≤ 57)
-
-/-- a decoded escape never injects a quote, a backslash, a line terminator or a digit -/
-theorem decoded_escape_is_harmless (v : Nat) (hv : v ≤ 0x10FFFF) (hk : keepEscaped v = false) :
-    ∀ b ∈ encodeUTF8 v, structural b = false := by
-  rw [encodeUTF8_is_utf8 v hv]
-  unfold keepEscaped at hk
-  simp only [Bool.or_eq_false_iff, beq_eq_false_iff_ne, Bool.and_eq_false_imp, decide_eq_true_eq, decide_eq_false_iff_not] at hk
-  unfold utf8Encode
-  intro b hb
-  unfold structural
-  split at hb
-  · simp only [List.mem_singleton] at hb; subst hb
-    simp only [Bool.or_eq_false_iff, beq_eq_false_iff_ne, Bool.and_eq_false_imp, decide_eq_true_eq, decide_eq_false_iff_not]
-    omega
-  · have : 128 ≤ b := by
-      split at hb
-      · simp at hb; omega
-      · split at hb <;> simp at hb <;> omega
-    simp only [Bool.or_eq_false_iff, beq_eq_false_iff_ne, Bool.and_eq_false_imp, decide_eq_true_eq, decide_eq_false_iff_not]
-    omega
-
-/-- surrogate halves are never decoded (their "encoding" would not be UTF-8) -/
-theorem surrogates_stay_escaped (v : Nat) (h : 0xD800 ≤ v ∧ v ≤ 0xDFFF) : keepEscaped v = true := by
-  unfold keepEscaped; simp; omega
-
-/-- everything the lexer decodes is a Unicode scalar value -/
-theorem decoded_is_scalar (v : Nat) (hv : v ≤ 0x10FFFF) (hk : keepEscaped v = false) : isScalar v = true := by
-  unfold keepEscaped at hk
-  unfold isScalar
-  simp only [Bool.or_eq_false_iff, beq_eq_false_iff_ne, Bool.and_eq_false_imp, decide_eq_true_eq, decide_eq_false_iff_not] at hk
-  simp; omega
 
 /-- back-quoted literals are written with every backtick escaped and nothing else changed -/
 theorem backtick_printer (tok : Token) (v : Bytes) (cw : CW) :
@@ -148,7 +73,55 @@ theorem number_printer (tok : Token) (cw : CW) :
     writeExpr (.float tok) cw = (cw.head tok).writeString tok.lit := by
   simp [writeExpr]
 
+
+/-- the printer writes a string token's value between double quotes, whatever quotes the source used -/
+theorem string_printer (tok : Token) (v : Bytes) (cw : CW) :
+    writeExpr (.str tok v) cw = (((cw.head tok).writeRune 34).writeString v).writeRune 34 := by
+  simp [writeExpr]
+
+theorem readChars_rest' (n : Nat) (s : LS) : (readChars n s).rest = s.rest.drop n := by
+  induction n generalizing s with
+  | zero => rfl
+  | succ n ih =>
+    rw [readChars, ih]
+    unfold readChar
+    cases h : s.rest with
+    | nil => simp [h]
+    | cons c r => simp only [List.drop_succ_cons]; split <;> rfl
+
+/-- STRING VALUES SURVIVE: a literal `d body d` (d a single or double quote) whose body denotes `items` is lexed to a
+    STRING token — not ILLEGAL — whose value denotes the same `items` when read as the body of a double-quoted
+    literal, which is how the printer writes it (`string_printer`). Every length, every mix of escape sequences. -/
+theorem string_literal_keeps_its_value (d : Nat) (hd : d = 34 ∨ d = 39) (body rest : Bytes) (items : List Item)
+    (h : SVR d body items) (hnul : ∀ c ∈ body, c ≠ 0) (nl : Bool) (cs : List Bytes) (s : LS)
+    (hs : s.rest = d :: (body ++ d :: rest)) :
+    (baseNextToken nl cs s).1.type = .string ∧ SVR 34 (baseNextToken nl cs s).1.lit items ∧
+    (baseNextToken nl cs s).2.rest = rest := by
+  obtain ⟨out, h1, h2, _⟩ := SVP.sv_keeps_value d hd h hnul rest (body ++ d :: rest).length [] 0 (by simp)
+  have hcur : s.cur = d := by unfold LS.cur; rw [hs]; rfl
+  have htail : s.rest.tail = body ++ d :: rest := by rw [hs]; rfl
+  have hscan : scanString d (s.rest.length - 1) s.rest.tail [] 0 = (out, body.length) := by
+    have hlen : s.rest.length - 1 = (body ++ d :: rest).length := by rw [hs]; simp
+    rw [hlen, htail, h1]; simp
+  have hdrop : (readChars (1 + body.length) s).rest = d :: rest := by
+    rw [readChars_rest', hs, Nat.add_comm, List.drop_succ_cons, List.drop_append]; simp
+  have hecur : (readChars (1 + body.length) s).cur = d := by unfold LS.cur; rw [hdrop]; rfl
+  have hnext : (readChar (readChars (1 + body.length) s)).rest = rest := by
+    unfold readChar; rw [hdrop]; simp only; split <;> rfl
+  unfold baseNextToken
+  rcases hd with rfl | rfl <;>
+    simp [hcur, hscan, hecur, hnext, mkTok, h2]
+
 /-! Non-vacuity -/
+/-- `'a"\x41\u{1F600}\x22'`: a raw double quote inside single quotes, a decoded escape, an astral escape, and an escape
+    that must stay escaped — the premises of the theorem are satisfiable, with value `a"A😀"` -/
+example : SVR 39 [97, 34, 92, 120, 52, 49, 92, 117, 123, 49, 70, 54, 48, 48, 125, 92, 120, 50, 50]
+    ([.byte 97, .byte 34] ++ (cpItems 0x41 ++ (cpItems 0x1F600 ++ (cpItems 0x22 ++ [])))) :=
+  .raw 97 _ _ (by decide) (by decide) (by decide) (by decide) <|
+  .raw 34 _ _ (by decide) (by decide) (by decide) (by decide) <|
+  .hex 52 49 4 1 _ _ (by decide) (by decide) <|
+  .ubrace [49, 70, 54, 48, 48] 0x1F600 _ _ (by decide) (by decide) (by decide) (by decide) <|
+  .hex 50 50 2 2 _ _ (by decide) (by decide) .nil
 example : encodeUTF8 0xE9 = [0xC3, 0xA9] ∧ encodeUTF8 0x1F600 = [0xF0, 0x9F, 0x98, 0x80] := by decide
 example : keepEscaped 0x22 = true ∧ keepEscaped 0xE9 = false ∧ keepEscaped 0x35 = true := by decide
 example : escBackticks [97, 96, 98] = [97, 92, 96, 98] := by decide
@@ -162,3 +135,5 @@ end Xjs.C07
 #print axioms Xjs.C07.backtick_printer
 #print axioms Xjs.C07.escBackticks_no_raw_backtick
 #print axioms Xjs.C07.number_printer
+#print axioms Xjs.C07.string_printer
+#print axioms Xjs.C07.string_literal_keeps_its_value
